@@ -30,8 +30,9 @@ impl IntoParallelSource for Range<u64> {
     fn generate_iterator(self, index: CoordUInt, peers: CoordUInt) -> Self::Iter {
         // an empty or reversed range has no elements
         let n = self.end.saturating_sub(self.start);
-        let chunk_size = (n.saturating_add(peers - 1)) / peers;
-        let start = self.start.saturating_add(index * chunk_size);
+        // ceiling division without overflow (n + peers - 1 does not fit for ranges near u64::MAX)
+        let chunk_size = n / peers + u64::from(n % peers != 0);
+        let start = self.start.saturating_add(index.saturating_mul(chunk_size));
         let end = (start.saturating_add(chunk_size))
             .min(self.end)
             .max(self.start);
